@@ -252,6 +252,18 @@ class ListOf(Ty):
         return SList(n, elem, uid)
 
 
+class IterOf(Ty):
+    """An iterator over a sequence of symbolic length (e.g. the lines of a file), positioned at its start.
+    In clauses: `it.xs` is the underlying sequence, `it.pos` the number of items consumed so far."""
+
+    def __init__(self, elem):
+        self.elem = elem
+
+    def make(self, interp, name):
+        from .models import SIter
+        return SIter(ListOf(self.elem).make(interp, name), 0)
+
+
 class FixedList(Ty):
     def __init__(self, *elems, as_tuple=False):
         self.elems = elems
@@ -652,7 +664,7 @@ class Contract:
     def __init__(self, qname, params=None, ghosts=None, requires=None, returns=None, ensures=None,
                  raises=None, may_raise=(), raises_only=None, modifies=None, props=(), setup=None,
                  old=None, pure_result=False, notes='', concretize=None, replay=None, trusted=False,
-                 cover=True, inline=False, event=None):
+                 cover=True, inline=False, event=None, yields=None):
         self.qname = qname
         self.params = params or {}
         self.ghosts = ghosts or {}
@@ -670,6 +682,7 @@ class Contract:
         self.replay = replay
         self.trusted = trusted              # True: assumed contract (not verified); listed in evidence
         self.cover = cover
+        self.yields = yields                # generator functions: shape of the items (ListOf(...)) for call sites
         self.event = event                  # ghost event emitted at call sites that use the contract
         self.inline = inline                # verified, but call sites interpret the body (tiny helpers)
         self.func = None
